@@ -71,7 +71,9 @@ type chainCtx struct {
 	txs     map[string][]txLoc // tx bytes -> positions
 	txList  []txLoc            // every tx position in order
 	indexer *txkv.TxIndex
-	keys    []string // user keys ever written (without namespace)
+	keys    []string   // user keys ever written (without namespace)
+	ms      *miniStore // two-level proven store whose root is the value of recapp key "ms" (ministore.go)
+	msFrom  int64      // first height whose state holds it
 	sigs    *ref.SigCache
 }
 
@@ -127,9 +129,10 @@ func buildChain(spec chainSpec) (cc *chainCtx, err error) {
 	model := map[string]string{} // the application's key/value state, modelled from the tx grammar
 	// every chain has a block of each size 1..9 (all the tree shapes of small blocks), at seed-chosen heights
 	forced := map[int]int{}
-	for s, n := range rand.New(rand.NewSource(spec.Seed ^ 0x5eed)).Perm(spec.N)[:9] {
-		forced[n] = s + 1
+	for s, n := range rand.New(rand.NewSource(spec.Seed ^ 0x5eed)).Perm(spec.N - 1)[:9] {
+		forced[n+1] = s + 1 // never the first block: it carries the special-key set-up txs
 	}
+	cc.ms, cc.msFrom = buildMiniStore(), spec.Initial
 	for n := 0; n < spec.N; n++ {
 		h := ch.NextHeight()
 		var plan chaingen.StepPlan
@@ -139,6 +142,22 @@ func buildChain(spec chainSpec) (cc *chainCtx, err error) {
 		}
 		if f, ok := forced[n]; ok {
 			ntx = f
+		}
+		if n == 0 {
+			// set-up: the mini-store root, and every special key (twins with different values) in the plain store
+			setup := []types.Tx{types.Tx("ms=" + string(cc.ms.root))}
+			cc.keys = append(cc.keys, "ms")
+			keySeen["ms"] = true
+			for i, k := range specialPlainKeys {
+				setup = append(setup, types.Tx(fmt.Sprintf("%s=special-%d", k, i)))
+				cc.keys = append(cc.keys, k)
+				keySeen[k] = true
+			}
+			for _, tx := range setup {
+				plan.Txs = append(plan.Txs, tx)
+				applyModel(model, tx)
+			}
+			ntx += len(plan.Txs)
 		}
 		valTouched := map[string]bool{}
 		removals := 0
@@ -210,7 +229,7 @@ func buildChain(spec chainSpec) (cc *chainCtx, err error) {
 			default:
 				plan.Txs = append(plan.Txs, types.Tx(fmt.Sprintf("plain-%d", ctr)))
 				applyModel(model, plan.Txs[len(plan.Txs)-1])
-				if k := fmt.Sprintf("plain-%d", ctr); !keySeen[k] && len(cc.keys) < 12 {
+				if k := fmt.Sprintf("plain-%d", ctr); !keySeen[k] && len(cc.keys) < 22 {
 					keySeen[k] = true
 					cc.keys = append(cc.keys, k)
 				}
